@@ -5,6 +5,7 @@ Theorems on the dialect-dependent clause rules (over the flags regenerated from 
 import PrqlModel.Model.Clause
 import PrqlModel.Props.C03
 import PrqlModel.Lemmas.Anchor
+import PrqlModel.Lemmas.CteOrder
 namespace Props.C07
 open Model.Clause Model.Take Gen Rel
 
@@ -134,5 +135,42 @@ example : wfPipe exPipe [2, 4, 5] = true ∧
     (splitOffBack [] exPipe [2, 4, 5]).kept = [.filter (.op (.cons (.col 5) (.cons .leaf .nil)))] := by decide
 
 end Scope
+
+/-! ## T1' table references: by name only to what is defined earlier (mirror of `compile_relation_instance`)
+
+`Model.CteOrder` mirrors the decision "reference by name / inline as a sub-query / define as a CTE now" and the order in
+which CTEs reach the WITH list; it is tied to the code by replaying the recorded nesting of every compilation
+(tools/ctetrace.py). -/
+section CteOrder
+open Model.CteOrder Lemmas.CteOrder
+
+/-- **table_refs_are_defined_earlier.** For every ranked (acyclic) structure of relation bodies - RQ tables refer to tables
+declared before them, and the relations the splitter creates refer to what stood in front of the cut -, any flags
+(`prefer_cte`, `allow_ctes`) on the individual references and any nesting depth: whenever a relation is referenced by
+name, it is a relation that was defined from the start (a database table) or a CTE that has already been pushed to the
+WITH list. The CTE containing the reference is pushed after its body, so the definition stands earlier in the WITH list:
+no reference to a relation that is defined later, or only inside another sub-query. -/
+theorem table_refs_are_defined_earlier (b : Bodies) (rank rankB : Nat → Nat) (hr : Ranked b rank rankB)
+    (extern : List Nat) (fuel : Nat) (main : List Ref) (hmain : ∀ x ∈ main, rankB x.bodyId ≤ rank x.tid) :
+    ∀ pre t post, compileMain b fuel extern main = pre ++ Ev.useRef t :: post → t ∈ extern ∨ Ev.ctePush t ∈ pre :=
+  refs_defined b rank rankB hr extern fuel main hmain
+
+/-- non-vacuity: main reads x (twice) and appends y (a sub-query); x reads the table 0 and z; y reads x. Ranked by
+0 < z=3 < x=1.. : rank := fun t => [0, 3, 4, 2].getD t 0 (table 0, x = 1, y = 2, z = 3) -/
+def exBodies : Bodies := [(1, [{ tid := 0, preferCte := true, allowCtes := true }, { tid := 3, preferCte := true, allowCtes := true, bodyId := 3 }]),
+                          (2, [{ tid := 1, preferCte := true, allowCtes := true, bodyId := 1 }]),
+                          (3, [{ tid := 0, preferCte := true, allowCtes := true }])]
+def exMain : List Ref := [{ tid := 1, preferCte := true, allowCtes := true, bodyId := 1 },
+                          { tid := 2, preferCte := false, allowCtes := true, bodyId := 2 },
+                          { tid := 1, preferCte := true, allowCtes := true, bodyId := 1 }]
+
+example : compileMain exBodies 5 [0] exMain =
+    [.cteBegin 1, .useRef 0, .cteBegin 3, .useRef 0, .ctePush 3, .useRef 3, .ctePush 1, .useRef 1,
+     .subBegin 2, .useRef 1, .subEnd 2, .useRef 1] ∧ withList (compileMain exBodies 5 [0] exMain) = [3, 1] := by decide
+
+example : Ranked exBodies (fun t => [0, 3, 4, 2].getD t 0) (fun bid => [0, 3, 4, 2].getD bid 0) :=
+  ranked_of_B _ _ _ (by decide)
+
+end CteOrder
 
 end Props.C07
